@@ -538,11 +538,16 @@ def run_invlink(CR, base, ns, target, explicit, real=False, bi=0):
     from docutils import nodes
     from markdown_it.token import Token
 
-    ctx = CR.new_context(real=real, config={"inventories": {"k": ("https://base.invalid/root/", None)}})
-    inv_data = {"name": "P", "version": "1", "base_url": BASES[bi], "objects": {"std": {"label": {ns[0]: {"loc": "l0.html", "text": None}, ns[1]: {"loc": "l1.html#x", "text": "T1"}},
-                                                                                                        "doc": {ns[2]: {"loc": "l2.html", "text": None}}}}}
+    # two configured inventories, deliberately NOT in alphabetical order: "inventory order" is the configured order
+    ctx = CR.new_context(real=real, config={"inventories": {"zeta": ("https://zeta.invalid/", None), "alpha": ("https://alpha.invalid/", None)}})
+    inv_z = {"name": "P", "version": "1", "base_url": BASES[bi], "objects": {"std": {"label": {ns[0]: {"loc": "l0.html", "text": None}, ns[1]: {"loc": "l1.html#x", "text": "T1"}}}}}
+    inv_a = {"name": "P", "version": "1", "base_url": BASES[bi], "objects": {"std": {"doc": {ns[2]: {"loc": "l2.html", "text": None}}}}}
     saved = base.inventory.fetch_inventory
-    base.inventory.fetch_inventory = lambda *a, **k: inv_data
+
+    def fetch(path, *a, **k):
+        return inv_z if "zeta" in str(path) + str(k.get("base_url")) else inv_a
+
+    base.inventory.fetch_inventory = fetch
     try:
         href = "inv:#" + target
         if explicit:
